@@ -327,7 +327,7 @@ func c07Extras() []*progCase {
 		&If{Cond: Bin("||", &IsExpr{V("v"), "object"}, &IsExpr{V("v"), "array"}), Then: Blk(Ex(CallE(V("walk"), V("v"), path(V("k"))))), Else: Pr(path(V("k")), V("v"))})})}
 	walk1 := &Func{Name: "walk", Params: []string{"o", "p"}, Body: Blk(&ForIn{V: "k", Iter: V("o"), Body: Blk(
 		&If{Cond: &IsExpr{Idx(V("o"), V("k")), "object"}, Then: Blk(Ex(CallE(V("walk"), Idx(V("o"), V("k")), path(V("k"))))), Else: Pr(path(V("k")), Idx(V("o"), V("k")))})})}
-	count := &Func{Name: "count", Params: []string{"n"}, Body: Blk(Ex(Asg("=", V("i"), N("0"))), &While{Cond: Bin("<", V("i"), V("n")), Body: Blk(Ex(&Postfix{"++", V("i")}), Pr(S("level"), V("n"), S("i"), V("i")), &If{Cond: Bin(">", V("n"), N("1")), Then: Blk(Ex(CallE(V("count"), Bin("-", V("n"), N("1")))))})}, &Return{X: V("n")})}
+	count := &Func{Name: "count", Params: []string{"n", "i"}, Body: Blk(Ex(Asg("=", V("i"), N("0"))), &While{Cond: Bin("<", V("i"), V("n")), Body: Blk(Ex(&Postfix{"++", V("i")}), Pr(S("level"), V("n"), S("i"), V("i")), &If{Cond: Bin(">", V("n"), N("1")), Then: Blk(Ex(CallE(V("count"), Bin("-", V("n"), N("1")))))})}, &Return{X: V("n")})}
 	cfor := &Func{Name: "cfor", Params: []string{"n"}, Body: Blk(&For{Init: Asg("=", V("j"), N("0")), Cond: Bin("<", V("j"), N("2")), Post: &Postfix{"++", V("j")}, Body: Blk(Pr(S("level"), V("n"), S("j"), V("j")), &If{Cond: Bin(">", V("n"), N("0")), Then: Blk(Ex(CallE(V("cfor"), Bin("-", V("n"), N("1")))))})})}
 	chars := &Func{Name: "chars", Params: []string{"s"}, Body: Blk(&ForIn{V: "ch", W: "off", Iter: V("s"), Body: Blk(Pr(V("s"), V("ch"), V("off")), &If{Cond: Bin(">", CallE(Mem(V("s"), "length")), N("1")), Then: Blk(Ex(CallE(V("chars"), V("ch"))))})})}
 	out = append(out,
@@ -411,7 +411,7 @@ func init() {
 			if u == 0 {
 				for i, pc := range c07Extras() {
 					pc, i := pc, i
-					c.Do(func() any { return c07Spec{Tree: "extra", Ctx: i} }, func() *fw.Violation { v, _, _ := pc.check(c); return v })
+					c.Do(func() any { return c07Spec{Tree: "extra", Ctx: i} }, func() *fw.Violation { return pc.mustCheck(c, "fixed control-flow programs") })
 				}
 			}
 		},
